@@ -267,6 +267,7 @@ func firstLine(s string) string {
 // Finish writes the evidence file, prints the verdict lines and exits.
 func (c *Check) Finish() {
 	stopProfile()
+	explore.CleanupRaceLogs()
 	wall := time.Since(c.start).Seconds()
 	// classify violations against the known-findings file
 	var fresh []explore.Violation
@@ -312,7 +313,7 @@ func (c *Check) Finish() {
 		"distinct_nontrivial":           c.nontrivial,
 		"rule":                          c.Rule,
 		"samples":                       c.samples,
-		"exhaustive":                    c.exhaustive && len(fresh) == 0 && len(c.errors) == 0,
+		"exhaustive":                    c.exhaustive && len(fresh) == 0 && len(c.errors) == 0, // known findings do not cut anything
 		"explanation":                   c.Explanation,
 		"sections":                      c.sections,
 		"known_findings_reported":       keys,
